@@ -15,6 +15,13 @@ def make_cases(rng, tier, n):
             # a directory artifact that is empty (its manifest has no entries)
             c["init"].append(("dir", b"emptyart"))
             c["stages"].append((b"empty.yaml", dict(cmd=b"", wd=b".", out=[(b"emptyart", "d")])))
+        shared_in = None
+        if len(c["stages"]) >= 2 and rng.random() < 0.3:
+            # one plain input listed by two stages; each stage records its own checksum for it
+            shared_in = b"src/shared.txt"
+            c["init"].append(("file", shared_in, "g:%d:12" % rng.randrange(1000)))
+            for sp_, st_ in c["stages"][:2]:
+                st_.setdefault("in", []).append((shared_in, ""))
         strat = rng.choice("lc")
         arts = s1eval.artifacts(c)
         files = [e for e in c["init"] if e[0] == "file"]
@@ -90,6 +97,10 @@ def make_cases(rng, tier, n):
             ops += [("clone", [b"workdir", b"workdir/inner"] if c.get("cwd") else []), ("checkout", rng.choice("lc"), False, [])]
         else:
             edit = "none"
+        c["shared_in"] = shared_in
+        if shared_in and ops and edit == "none":
+            # the input changes and only ONE of the two stages is committed again (or the old version comes back)
+            ops += [("write", shared_in, "g:%d:12" % rng.randrange(2000, 3000)), ("commit", strat, [c["stages"][rng.randrange(2)][0]])]
         ops.append(("status", []))
         c["ops"] = ops
         c["edit"] = edit
@@ -112,6 +123,8 @@ def expected(run, step_commit, step_now):
                 rec[s1.unhx(parts[1])] = parts[2]
     for sp, st in case["stages"]:
         for p, fl in st.get("out", []) + [(q, f + "s") for q, f in st.get("in", [])]:
+            if p == case.get("shared_in"):
+                continue            # listed by two stages with possibly different checksums: see plain_input_verdicts
             if "s" in fl:
                 v = now_ws.get(p)
                 if v is not None and v[0] == "lo" and now_cache.get(v[1]) == rec.get(p):
@@ -164,6 +177,43 @@ def only_unbacked_empty_dirs_stale(tree):
     return all(only_unbacked_empty_dirs_stale(k) for k in tree["kids"])
 
 
+def plain_input_verdicts(run, stat_steps):
+    """per (stage, plain input): up to date iff the workspace file hashes to the checksum THIS stage recorded"""
+    v = []
+    case = run["case"]
+    ins = set((sp, p) for sp, st in case["stages"] for p, fl in st.get("in", []) if "d" not in fl)
+    for s in stat_steps:
+        now_ws, _ = s1eval.parse_snap(s["snap"])
+        rec = {}
+        for l in s["snap"]["lines"]:
+            if l.startswith("s "):
+                toks = l.split()
+                for t in toks[3:]:
+                    parts = t.split(":")
+                    if parts[0] == "i":
+                        rec[(s1.unhx(toks[1]), s1.unhx(parts[1]))] = parts[2]
+        for l in s["status"]:
+            if not l.startswith("a "):
+                continue
+            _, sp, ap, text, tree = l.split(" ", 4)
+            key = (s1.unhx(sp), s1.unhx(ap))
+            if key not in ins or key not in rec:
+                continue
+            cur = now_ws.get(key[1])
+            if cur is None or cur[0] != "f":
+                continue
+            want = cur[1] == rec[key]
+            t = s1eval.parse_tree(tree)
+            if t["cm"] != want:
+                v.append(("debug", "status --debug says ContentsMatch=%s for input %s of stage %s; the file hashes to %s, the stage recorded %s" % (
+                    t["cm"], key[1].decode(), key[0].decode(), cur[1][:12], rec[key][:12])))
+            hu = human_uptodate(s1.unhx(text).decode("utf-8", "replace"))
+            if hu != want:
+                v.append(("human", "human status %r for input %s of stage %s; the file hashes to %s, the stage recorded %s" % (
+                    s1.unhx(text).decode("utf-8", "replace"), key[1].decode(), key[0].decode(), cur[1][:12], rec[key][:12])))
+    return v
+
+
 def oracle(run):
     v = []
     steps = run["steps"]
@@ -181,6 +231,7 @@ def oracle(run):
         return v
     commit = steps[0]
     stat_steps = [s for s in steps if s["op"][0] == "status" and s["rc"] == 0]
+    v += plain_input_verdicts(run, stat_steps)
     for s in stat_steps:
         exp = expected(run, commit, s)
         got = s1eval.status_of(s)
